@@ -325,34 +325,6 @@ func ccallCase(c *mon.Case, sc ccScript, sampled bool) {
 			return
 		}
 	}
-	// the argument slice belongs to the caller: calling again with the same slice runs every non-nil function once more
-	allNil, hasNilEntry := true, false
-	for _, f := range fns {
-		switch f.outcome {
-		case ccNilEntry:
-			hasNilEntry = true
-		case ccRetNil:
-		default:
-			allNil = false
-		}
-	}
-	if allNil && hasNilEntry && nonNil > 0 && sc.CancelCaller == 0 && res.err == nil && !c.Violated() {
-		err2 := ccall.CallConcurrently(ctx, args...)
-		if !mon.Quiesce(5 * time.Second) {
-			c.Inconclusive("no quiescence after the second call")
-			return
-		}
-		c.Count("second_calls_with_same_slice", 1)
-		for i, f := range fns {
-			if f.outcome == ccNilEntry {
-				continue
-			}
-			if k := f.calls.Load(); k != 2 || err2 != nil {
-				c.Violate("ccall", "ccall-invocation-count", "a second CallConcurrently with the same argument slice %s returned %v and function %d has now been invoked %d times in total (want 2: once per call)", sc, err2, i, k)
-				return
-			}
-		}
-	}
 	callerCancelled := cancelStamp.Load() != 0 && cancelStamp.Load() < res.retStamp
 	if sc.CancelCaller == 4 && ctx.Err() != nil {
 		// the moment the timeout fired is not observable; this only permits a context.Canceled result
@@ -370,6 +342,34 @@ func ccallCase(c *mon.Case, sc ccScript, sampled bool) {
 			if f.retAt.Load() == 0 || f.retAt.Load() > res.retStamp {
 				c.Violate("ccall", "ccall-nil-before-all-done", "CallConcurrently %s returned nil (stamp %d) before function %d had returned (stamp %d)", sc, res.retStamp, i, f.retAt.Load())
 				return
+			}
+		}
+		// the argument slice belongs to the caller: calling again with the same slice runs every non-nil function once more
+		allNil, hasNilEntry := true, false
+		for _, f := range fns {
+			switch f.outcome {
+			case ccNilEntry:
+				hasNilEntry = true
+			case ccRetNil:
+			default:
+				allNil = false
+			}
+		}
+		if allNil && hasNilEntry && nonNil > 0 && sc.CancelCaller == 0 && res.err == nil && !c.Violated() {
+			err2 := ccall.CallConcurrently(ctx, args...)
+			if !mon.Quiesce(5 * time.Second) {
+				c.Inconclusive("no quiescence after the second call")
+				return
+			}
+			c.Count("second_calls_with_same_slice", 1)
+			for i, f := range fns {
+				if f.outcome == ccNilEntry {
+					continue
+				}
+				if k := f.calls.Load(); k != 2 || err2 != nil {
+					c.Violate("ccall", "ccall-invocation-count", "a second CallConcurrently with the same argument slice %s returned %v and function %d has now been invoked %d times in total (want 2: once per call)", sc, err2, i, k)
+					return
+				}
 			}
 		}
 		return
